@@ -35,6 +35,42 @@ class Unsupported(Exception):
     pass
 
 
+def _encoded(v, enc, field, pre, post):
+    """Encoding modifiers (Sigma specification): UTF-16 transformation of the UTF-8 value, then Base64 of the
+    bytes; base64offset = the three alignment-independent Base64 substrings, any of which may occur."""
+    import base64
+
+    if not isinstance(v, str) or any(c in v for c in "*?\\"):
+        raise Unsupported("encoded value with special characters")
+    alts = [v.encode("utf-8")]
+    text = False
+    for m in enc:
+        if text:
+            raise Unsupported("modifier after base64")
+        if m in ("wide", "utf16le"):
+            alts = [b.decode("utf-8").encode("utf-16le") for b in alts]
+        elif m == "utf16be":
+            alts = [b.decode("utf-8").encode("utf-16be") for b in alts]
+        elif m == "base64":
+            alts = [base64.b64encode(b) for b in alts]
+            text = True
+        else:
+            starts, ends = (0, 2, 3), (None, -3, -2)
+            alts = [base64.b64encode(b" " * i + b)[starts[i] : ends[(len(b) + i) % 3]] for b in alts for i in range(3)]
+            text = True
+    if not text:
+        raise Unsupported("UTF-16 value without base64")
+    out = []
+    for a in alts:
+        toks = [("c", ch) for ch in a.decode("ascii")]
+        if pre:
+            toks = [M] + toks
+        if post:
+            toks = toks + [M]
+        out.append(glob(False, field, toks))
+    return out[0] if len(out) == 1 else ("or", out)
+
+
 def item_formula(key, value, native_cidr=False):
     if key is None:
         field, mods = None, []
@@ -49,6 +85,7 @@ def item_formula(key, value, native_cidr=False):
     cased = False
     pre = post = False
     flags = set()
+    enc = []
     for m in mods:
         if m == "all":
             link = "and"
@@ -66,11 +103,17 @@ def item_formula(key, value, native_cidr=False):
             mode = m
         elif m in ("i", "m", "s"):
             flags.add(m)
+        elif m in ("wide", "utf16le", "utf16be", "base64", "base64offset"):
+            if pre or post or cased or mode != "eq":
+                raise Unsupported(m + " after another value modifier")
+            enc.append(m)
         else:
             raise Unsupported(m)
     subs = []
     for v in values:
-        if mode == "eq":
+        if mode == "eq" and enc:
+            subs.append(_encoded(v, enc, field, pre, post))
+        elif mode == "eq":
             if v is None:
                 subs.append(("atom", ("null", field)))
             elif isinstance(v, bool):
